@@ -4,6 +4,7 @@ from lib.paths import Explorer, call_sequences
 from lib import tables
 from .C15 import const_str
 
+INLINE = True      # crate-local helpers the rules do not know by name are inlined into their callers (lib/inline.py)
 EXPLANATION = (
     "R20.1 start/finish typestate with correlated-branch splitting: on every feasible normal path of run_tree, "
     "run_bench_entry and the run_bench closure each start_parent is closed by exactly one finish_parent, each start_leaf "
@@ -211,6 +212,14 @@ def _strip_sites(e):
     if e and e[0] == "site" and len(e) >= 3:
         return ("site", e[1]) + tuple(_strip_sites(x) for x in e[3:])
     return tuple(_strip_sites(x) for x in e)
+
+
+def r20_12(ctx, prog, crate):
+    """Each thread-count branch is printed exactly once: the list the `t=N` leaves are painted from is sorted and then
+    de-duplicated after 0 was resolved (C15's thread-count pipeline R15.4, reported here under this property)."""
+    from rules import C15
+    from rules.common import Renamed
+    C15.r15_4(Renamed(ctx, "R20.12"), prog, crate)
 
 
 def r20_11(ctx, prog, crate):
@@ -539,6 +548,11 @@ def r20_5(ctx, prog, crate):
                 v = const_str(a)
                 if v:
                     strs.add(v)
+        for bi_, si_, s_ in ib.stmts():
+            if s_["k"] == "assign" and s_["rv"]["k"] == "use":
+                v = const_str(s_["rv"]["o"])
+                if v:
+                    strs.add(v)
         ctx.check("(ignored)" in strs, "R20.5", ["ignore_leaf", "marker"], "ignore_leaf's literals: %s" % sorted(strs), ib.where(0))
 
 
@@ -831,6 +845,7 @@ def run(ctx, prog, crate):
     r20_9(ctx, prog, crate)
     r20_10(ctx, prog, crate)
     r20_11(ctx, prog, crate)
+    r20_12(ctx, prog, crate)
     r20_7(ctx, prog, crate)
     r20_1(ctx, prog, crate)
     r20_2(ctx, prog, crate)
